@@ -340,6 +340,21 @@ func (e *Engine) assumeSpecLemmas(env *Env, sf *SpecFunc) {
 		env.st.elemsDone = nd
 		return true
 	}
+	// defining equations of recursive spec functions: this one and every recursive one its equation mentions
+	var defs func(name string)
+	defs = func(name string) {
+		d := e.specFuncsDefined[sf.Pkg+"."+name]
+		if d == nil || d.axiom == "" || !mark("def:"+sf.Pkg+"."+name) {
+			return
+		}
+		env.st.assume(d.axiom)
+		for other, od := range e.specFuncsDefined {
+			if od.axiom != "" && strings.HasPrefix(other, sf.Pkg+".") && strings.Contains(d.axiom, "("+od.sym+" ") {
+				defs(other[len(sf.Pkg)+1:])
+			}
+		}
+	}
+	defs(sf.Name)
 	pkg := e.typesPkg(sf.Pkg)
 	for i, ax := range cf.Axioms {
 		key := fmt.Sprintf("axiom:%s#%d", sf.Pkg, i)
@@ -413,6 +428,7 @@ type definedSpecFunc struct {
 	sym    string
 	ptypes []types.Type
 	rt     types.Type
+	axiom  string // recursive functions: the defining equation, assumed per path
 }
 
 func (e *Engine) defineSpecFunc(env *Env, sf *SpecFunc) (string, []types.Type, types.Type) {
@@ -468,7 +484,10 @@ func (e *Engine) defineSpecFunc(env *Env, sf *SpecFunc) (string, []types.Type, t
 			names = append(names, "p!"+sanitize(p.Name))
 		}
 		app := "(" + sym + " " + strings.Join(names, " ") + ")"
-		reg.decl(fmt.Sprintf("(assert (forall (%s) (! (= %s %s) :pattern (%s))))", strings.Join(binders, " "), app, body.S, app))
+		// the defining equation is NOT a global assertion: it is assumed on the paths that apply the function (assumeSpecLemmas),
+		// so that queries of unrelated units in the same run do not carry recursive definitions (they made E-matching wander:
+		// an encoder postcondition that discharges in 0.2 s alone went undecided after the C18 functions were defined)
+		d.axiom = fmt.Sprintf("(forall (%s) (! (= %s %s) :pattern (%s)))", strings.Join(binders, " "), app, body.S, app)
 		return sym, ptypes, rt
 	}
 	body := benv.eval(sf.Body)
